@@ -76,8 +76,9 @@ func (l *Lachesis) quorumOn(e int, f uint32) bool {
 }
 
 // AllowedFrames returns the inclusive range of frames event e (already added to the DAG, frame
-// field ignored) may claim: {1} without self-parent; otherwise from the self-parent's frame up,
-// each step above it requiring a quorum of roots at the frame below, at most 100 steps.
+// field ignored) may claim when it is processed: {1} without self-parent; otherwise from the
+// self-parent's frame up, each step above it requiring a quorum of roots at the frame below.
+// (No cap: the limit of 100 steps applies to building only, see BuildFrame.)
 func (l *Lachesis) AllowedFrames(e int) (lo, hi uint32) {
 	ev := l.D.E[e]
 	if ev.Self < 0 {
@@ -85,10 +86,19 @@ func (l *Lachesis) AllowedFrames(e int) (lo, hi uint32) {
 	}
 	s := l.selfFrame(ev.Self)
 	f := s
-	for f < s+MaxFrameJump && l.quorumOn(e, f) {
+	for l.quorumOn(e, f) {
 		f++
 	}
 	return s, f
+}
+
+// BuildFrame is the frame Build has to assign given the allowed range: the highest allowed frame,
+// at most MaxFrameJump above the self-parent's.
+func BuildFrame(lo, hi uint32) uint32 {
+	if hi > lo+MaxFrameJump {
+		return lo + MaxFrameJump
+	}
+	return hi
 }
 
 // Register records the root slots of a valid event: one per frame above its self-parent's frame
